@@ -560,27 +560,6 @@ void HPProc::getElementD(int k)
 //	free(q);
 //}
 
-bool HPProc::InTriangleTest(double x, double y, int i) const
-{
-	int j,k;
-	double z;
-	bool InFlag;
-
-    if(i<0) return false;
-
-    for(j=0,InFlag=true;((j<3) && (InFlag==true));j++)
-	{
-		k=j+1; if(k==3) k=0;
-        z=(meshnodes[meshelems[i]->p[k]]->x-meshnodes[meshelems[i]->p[j]]->x)*
-          (y-meshnodes[meshelems[i]->p[j]]->y) -
-          (meshnodes[meshelems[i]->p[k]]->y-meshnodes[meshelems[i]->p[j]]->y)*
-          (x-meshnodes[meshelems[i]->p[j]]->x);
-        if(z<0) InFlag=false;
-	}
-
-	return InFlag;
-}
-
 CComplex HPProc::blockIntegral(int inttype)
 {
 	CComplex c,z;
